@@ -166,6 +166,15 @@ class Arr:
         return 'Arr%s:%s' % (list(self.axes), self.elem)
 
 
+class PySlice:
+    """A Python slice object held in a variable (`rows = slice(a, b)`); full = slice(None[, None[, None]])."""
+    def __init__(self, full, text):
+        self.full, self.text = full, text
+
+    def __repr__(self):
+        return 'PySlice(%s)' % ('all' if self.full else self.text)
+
+
 class Rec:
     def __init__(self, fields):
         self.fields = dict(fields)
@@ -590,6 +599,10 @@ class Shape:
                     slots.append(('basic', Space('Slice', unparse(i), ax)))
                 continue
             v = self.ev(i, env)
+            if isinstance(v, PySlice):
+                # a slice object held in a variable: slice(None) keeps the axis, any other slice is a contiguous part of it IN THE ORDER OF THE AXIS
+                slots.append(('basic', ax if v.full else Space('Slice', v.text, ax)))
+                continue
             if isinstance(v, Ix):
                 self.check_ix(node, ax, v, i)
                 slots.append(('adv', []))
@@ -1213,7 +1226,8 @@ class Shape:
         if f in ('isinstance', 'hasattr', 'callable'):
             return BoolT()
         if f == 'slice':
-            return UNK
+            full = all(isinstance(a_, ast.Constant) and a_.value is None for a_ in e.args) and 1 <= len(e.args) <= 3
+            return PySlice(full, unparse(e))
         if f == 'str':
             return StrT()
         return None
@@ -1371,8 +1385,10 @@ class Shape:
                 if x1 == 'exit' and x2 == 'exit':
                     return 'exit'
                 rest = stmts[k + 1:]
-                differs = x1 != 'exit' and x2 != 'exit' and any(_sig(e1.get(n)) != _sig(e2.get(n)) for n in set(e1) | set(e2)
-                                                                if isinstance(e1.get(n), Arr) and isinstance(e2.get(n), Arr))
+                differs = x1 != 'exit' and x2 != 'exit' and (any(_sig(e1.get(n)) != _sig(e2.get(n)) for n in set(e1) | set(e2)
+                                                                 if isinstance(e1.get(n), Arr) and isinstance(e2.get(n), Arr)) or
+                                                             any(isinstance(e1.get(n), PySlice) != isinstance(e2.get(n), PySlice) and
+                                                                 isinstance(e1.get(n), (Arr, PySlice)) and isinstance(e2.get(n), (Arr, PySlice)) for n in set(e1) | set(e2)))
                 if differs:
                     self.forks = getattr(self, 'forks', 0) + 1
                     r1 = self.block(rest, e1, rets)
